@@ -605,7 +605,19 @@ func fileLoadExact(c *Ctx, id string) {
 	w := c.W
 	fn := w.Method("metadata", "fileMetadata", "Load")
 	c.need(fn != nil, id, "metadata.fileMetadata.Load")
-	h := &Harness{Fn: fn, Choices: map[string]int{"read": 3}, Quiet: quietLog, MaxSteps: 4000,
+	docT := w.NamedType("models", "CheckpointDocument")
+	c.need(docT != nil && len(fn.Params) == 3, id, "models.CheckpointDocument / fileMetadata.Load(vbIds, bucketUUID)")
+	uuidP := fn.Params[2].Name()
+	h := &Harness{Fn: fn, Choices: map[string]int{"read": 3}, Quiet: quietLog, MaxSteps: 4000, Concrete: true,
+		// a stored document may carry any bucket id: Load does not look (what is stored is what is returned)
+		Groups: []Group{{Atoms: []string{"stored0.BucketUUID", uuidP}, EqOnly: true}},
+		Complete: func(st *State, name string, args []AV) (AV, [][]AV, bool) {
+			// should the loaded map be walked, it holds one (symbolic) document
+			if strings.HasSuffix(name, ".Range") && len(args) >= 2 && st.C("read") == 0 {
+				return args[len(args)-1], [][]AV{{avOpaque{"int storedKey0"}, avPtr{&cell{typ: docT, sym: "stored0"}}}}, true
+			}
+			return nil, nil, false
+		},
 		Args: map[string]func(st *State) AV{fn.Params[1].Name(): func(st *State) AV {
 			// two requested vBuckets (symbolic ids)
 			t := types.Typ[types.Uint16]
@@ -628,6 +640,8 @@ func fileLoadExact(c *Ctx, id string) {
 				}
 			case strings.HasSuffix(name, ".UnmarshalJSON"):
 				return []AV{avIface{isNil: true}}, true
+			case strings.HasSuffix(name, ".Range"):
+				return []AV{}, true
 			}
 			return nil, false
 		}}
